@@ -67,6 +67,10 @@ pub struct Case {
     /// what the shell had read before the error.
     #[serde(default)]
     pub eio: Option<u32>,
+    /// the EIO is transient: only that one read fails. The shell must still
+    /// stop there (never run the part of a line it had read before the error)
+    #[serde(default)]
+    pub eio_once: bool,
     pub units: Vec<Unit>,
     /// last line has no trailing newline
     pub no_final_newline: bool,
@@ -710,6 +714,7 @@ pub fn generate(rng: &mut Rng, tier: Tier) -> Case {
     Case {
         cut: None,
         eio: None,
+        eio_once: false,
         units,
         no_final_newline,
         trap,
@@ -1089,6 +1094,7 @@ fn run_one(c: &Case, variant: Variant, cfg: &SimConfig, decider: Decider) -> (Ob
         let spec = spec_of(&full, Variant::FileStdin);
         let mut cfg = cfg.clone();
         cfg.fail_read_at = Some(k);
+        cfg.fail_read_once = c.eio_once;
         cfg.fail_read_stdin_of = Some(2);
         let obs = run_script_with(&spec, &cfg, decider, |_| {}, |_, _| true);
         // what the shell had read when the error struck
@@ -1316,12 +1322,18 @@ impl Prop for C18 {
                 obs.file_io.1
             };
             let eio_runs = match tier {
-                Tier::Quick => 1,
-                Tier::Thorough => 3,
+                Tier::Quick => 2,
+                Tier::Thorough => 4,
             };
             for j in 0..eio_runs.min(reads) {
                 let mut e = case.clone();
                 e.eio = Some(1 + rng.below(reads));
+                // (a transient error only where nothing but the shell's own
+                // reader reads the file: a command hit by it would just fail)
+                e.eio_once = j % 2 == 1 && !exp.reads_stdin;
+                if e.eio_once {
+                    stats.count("input_eio_transient", 1);
+                }
                 let cfg = draw_config(&mut rng, 1 + j);
                 let (obs, v) = run_one(&e, Variant::FileStdin, &cfg, Decider::record(Rng::stream(seed, 1880 + j as u64, index)));
                 stats.note_run(case_hash ^ 0xE10 ^ (j as u64) << 20, &obs.outcome, obs.faults_fired);
